@@ -258,7 +258,8 @@ Record field := mkField {
   f_count : option N;            (* Some K for [T; K] *)
   f_stride : option N;           (* stride = s, when written *)
   f_get : bool;                  (* r or rw *)
-  f_set : bool                   (* w or rw *)
+  f_set : bool;                  (* w or rw *)
+  f_doc : bool                   (* the user wrote a doc comment on the field *)
 }.
 
 Inductive default_form := DLit (n : N) | DConst (name : string) (n : N).
@@ -268,7 +269,8 @@ Record decl := mkDecl {
   d_W : N;                       (* declared (exposed) base width: 8,16,32,64,128 or an arbitrary-int width *)
   d_default : option default_form;
   d_debug : bool;
-  d_fields : list field
+  d_fields : list field;
+  d_doc : bool                   (* the user wrote a doc comment on the struct *)
 }.
 
 Definition entry_range (e : rentry) : range :=
@@ -337,5 +339,11 @@ Definition valid_field (W : N) (f : field) : bool :=
 
 Definition base_ok (W : N) : bool := (1 <=? W) && (W <=? 128).
 
+(** the [debug] option calls every field's getter without an index (C19: "bitfields whose fields
+    are all readable and not arrays; others do not compile with debug") *)
+Definition debug_ok (d : decl) : bool :=
+  negb (d_debug d)
+  || forallb (fun f => f_get f && match f_count f with None => true | Some _ => false end) (d_fields d).
+
 Definition valid_decl (d : decl) : bool :=
-  base_ok (d_W d) && forallb (valid_field (d_W d)) (d_fields d).
+  base_ok (d_W d) && forallb (valid_field (d_W d)) (d_fields d) && debug_ok d.
